@@ -227,7 +227,12 @@ func VPH_scan() {
 			tally[""]++
 			tally["branches"]++
 		case 2:
-			roots = append(roots, RefRoot{ref: git.Reference{Refname: "refs/z", OID: vpMkOID('c', 77)}, walk: false, groups: []RefGroupSymbol{"ignored"}})
+			// an unselected reference, possibly pointing at the very object a selected root names
+			zoid := vpMkOID('c', 77)
+			if vp_Choice("unselected-same-object", 2) == 1 {
+				zoid = top
+			}
+			roots = append(roots, RefRoot{ref: git.Reference{Refname: "refs/z", OID: zoid}, walk: false, groups: []RefGroupSymbol{"ignored"}})
 			nrefs++
 			tally["ignored"]++
 		}
@@ -275,9 +280,24 @@ func VPH_scan() {
 		return
 	}
 	// roots: exactly the walked roots are fed, in order; unselected references contribute nothing
-	vp_Assert(len(sc.addRoots) == len(wantAdd), "exactly the selected roots are fed to rev-list")
-	for i := 0; i < len(wantAdd) && i < len(sc.addRoots); i++ {
-		vp_Assert(sc.addRoots[i] == wantAdd[i], "root fed")
+	// (as sets: feeding one object twice or once is the same walk)
+	for _, w := range wantAdd {
+		found := false
+		for _, a := range sc.addRoots {
+			if a == w {
+				found = true
+			}
+		}
+		vp_Assert(found, "every selected root is fed to rev-list")
+	}
+	for _, a := range sc.addRoots {
+		found := false
+		for _, w := range wantAdd {
+			if a == w {
+				found = true
+			}
+		}
+		vp_Assert(found, "nothing but the selected roots is fed (unselected references contribute nothing)")
 	}
 	vp_Assert(sc.closed1 && sc.closed2, "both pipelines' inputs are closed")
 	// request order: trees as listed, commits in reverse listing order, tags as listed
